@@ -123,7 +123,11 @@ fn sum_len(rng: &mut Rng) -> usize {
     }
 }
 
-pub fn gen_c16(rng: &mut Rng, _i: u64, tier: Tier) -> Script {
+pub fn gen_c16(rng: &mut Rng, i: u64, tier: Tier) -> Script {
+    if i < crate::props_pipe::PHASE_SCRIPTS {
+        // compressor running checksum across every phase of the self-initiated block flush
+        return crate::props_pipe::phase_sweep_script(rng, i, "C16");
+    }
     match rng.below(13) {
         12 => {
             // the C stream's adler field: mz_deflate / mz_inflate in lock step (cabi scenario)
@@ -174,7 +178,7 @@ pub fn gen_c16(rng: &mut Rng, _i: u64, tier: Tier) -> Script {
         }
         6..=8 => {
             // compressor running checksum under schedules: zlib format or C-API style flags
-            let mut s = crate::props_pipe::gen_c02(rng, 0, tier);
+            let mut s = crate::props_pipe::gen_c02(rng, u64::MAX, tier);
             s.prop = "C16".into();
             s.set("clauses", PC_C02 | PC_C16);
             if rng.chance(1, 2) {
